@@ -9,6 +9,7 @@ from .common import gt, fields, declare_factor, make_factor, make_cond
 from .condprops import cond_decl, prior_decl, make_prior, CTOR_VARIANTS
 
 PROP = "C15"
+EXTRA_DRAWS = 0      # the thorough tier of this property is long already: no additional draws of the generic rationals
 
 BOUNDS = {
     "quick": "factor kinds (rank-one, linear, constant) vs ConjugateFactor under multiply/hadamard (update_full on/off, covariance cached or not), evaluate, slice, product, expected log-factor; diagonal measure/density vs full; diagonal / identity / identity-diagonal / NN-control conditionals vs ConditionalGaussianPDF for cond(x), set_y, the three transformations, entropies and expected log-conditionals; D=2, R<=2, (Dx,Dy) in {(1,1),(2,1),(1,2)}, identity classes D<=2 with R>1 on either side",
